@@ -43,7 +43,12 @@ def run_v_unit(prop, unit, tier, canary):
     timeout = opts.get("timeout", 1500) * (3 if tier == "thorough" else 1)
     if canary:
         rlimit = opts.get("canary_rlimit", 5)
-    res = verusrun.run_verus(gpath, rlimit=rlimit, timeout=timeout)
+    # Z3's nlsat ignores rlimit, so a query can occasionally run away; a timed-out run is repeated once with another
+    # solver seed before the unit is declared undecided
+    first_timeout = min(timeout, opts.get("first_timeout", 600) * (3 if tier == "thorough" else 1))
+    res = verusrun.run_verus(gpath, rlimit=rlimit, timeout=first_timeout)
+    if res["timed_out"] and not canary:
+        res = verusrun.run_verus(gpath, rlimit=rlimit, timeout=timeout, extra=["--smt-option", "smt.random_seed=7"])
     an = verusrun.analyse(unit, gen, info, res, REPO)
     an["info"] = info
     an["canary"] = canary
